@@ -289,6 +289,27 @@ func runC03(c *Check) {
 			}
 		}
 		if scan == nil {
+			// the scan written as a library search: slices.ContainsFunc(p.Sample, isZeroSample)
+			zs := p.Func("profile", "isZeroSample")
+			for _, es := range effectiveSites(mg, func(ins ssa.Instruction) bool {
+				call, ok := ins.(*ssa.Call)
+				if !ok || call.Call.StaticCallee() == nil || fnPkgPath(call.Call.StaticCallee()) != "slices" || len(call.Call.Args) != 2 {
+					return false
+				}
+				fns, _ := p.MG().funcValues(call.Call.Args[1], map[ssa.Value]bool{})
+				for _, fv := range fns {
+					if fv == zs && zs != nil {
+						return true
+					}
+				}
+				return false
+			}, 2) {
+				if sourceDerived(es.actual.(*ssa.Call).Call.Args[0], isSourceParam, map[ssa.Value]bool{}) == "" {
+					scan, viaHelper = es.at, true
+				}
+			}
+		}
+		if scan == nil {
 			c.bad("C03-R6", "zero-scan", p.relFile(mg.Pos()), "Merge no longer scans the merged samples for all-zero values: stacks whose sum is zero stay in the result")
 		} else {
 			ok := true
@@ -1032,7 +1053,7 @@ func (c *Check) perInputTables(rule string, mg *ssa.Function) {
 			case *ssa.MakeMap:
 				fresh[F] = true
 			case *ssa.Call:
-				fresh[F] = v.Call.StaticCallee() != nil && strings.HasPrefix(v.Call.StaticCallee().Name(), "make")
+				fresh[F] = v.Call.StaticCallee() != nil && (strings.HasPrefix(v.Call.StaticCallee().Name(), "make") || returnsEmptied(v.Call.StaticCallee()))
 			}
 		}
 	}
@@ -1089,4 +1110,48 @@ func (c *Check) perInputTables(rule string, mg *ssa.Function) {
 		}
 	}
 
+}
+
+// returnsEmptied: h returns a table (a struct of slices and maps) every container field of
+// which it has emptied or re-made: for each slice or map field of the result type, h clears
+// that field of some value of the type or stores a fresh make into it.
+func returnsEmptied(h *ssa.Function) bool {
+	if h == nil || len(h.Blocks) == 0 || h.Signature.Results().Len() != 1 {
+		return false
+	}
+	st, ok := h.Signature.Results().At(0).Type().Underlying().(*types.Struct)
+	if !ok {
+		return false
+	}
+	emptied := map[int]bool{}
+	for _, b := range h.Blocks {
+		for _, ins := range b.Instrs {
+			switch x := ins.(type) {
+			case *ssa.Call:
+				if bi, ok := x.Call.Value.(*ssa.Builtin); ok && bi.Name() == "clear" && len(x.Call.Args) == 1 {
+					if fa := fieldAddrOf(x.Call.Args[0]); fa != nil && types.Identical(fa.X.Type().Underlying().(*types.Pointer).Elem().Underlying(), st) {
+						emptied[fa.Field] = true
+					}
+				}
+			case *ssa.Store:
+				if fa, ok := x.Addr.(*ssa.FieldAddr); ok && types.Identical(fa.X.Type().Underlying().(*types.Pointer).Elem().Underlying(), st) {
+					switch x.Val.(type) {
+					case *ssa.MakeSlice, *ssa.MakeMap:
+						emptied[fa.Field] = true
+					}
+				}
+			}
+		}
+	}
+	n := 0
+	for i := 0; i < st.NumFields(); i++ {
+		switch st.Field(i).Type().Underlying().(type) {
+		case *types.Slice, *types.Map:
+			n++
+			if !emptied[i] {
+				return false
+			}
+		}
+	}
+	return n > 0
 }
